@@ -30,7 +30,8 @@ var vPwAll = []string{"p1", "p2", "p3"}
 
 func newPwWorld() *vPwWorld {
 	w := newWorld(vWorldOpts{CertCfg: []string{"password"}, WebUICfg: []string{"password"}})
-	g := &vPwWorld{w: w, dir: map[string]string{"alice": "p1", "bob": "p1"}, hashPw: map[string]string{}}
+	// "Alice" / "Bob" are OTHER accounts of the (case-sensitive) directory: a password is judged for the normalised name
+	g := &vPwWorld{w: w, dir: map[string]string{"alice": "p1", "bob": "p1", "Alice": "p3", "Bob": "p3"}, hashPw: map[string]string{}}
 	var cg *vGate
 	g.prim, cg = w.regate()
 	var err0 error
@@ -130,7 +131,20 @@ func (g *vPwWorld) step(a map[string]interface{}) map[string]interface{} {
 	u := vStr(a, "user")
 	switch vStr(a, "op") {
 	case "login":
-		r := g.w.Do(vReq{Method: "POST", Path: "/api/v0/login", Form: url.Values{"username": {u}, "password": {vStr(a, "pw")}}})
+		name := u
+		if vStr(a, "typed") == "capitalised" {
+			name = strings.ToUpper(u[:1]) + u[1:]
+		}
+		if vStr(a, "via") == "basic" {
+			// the password travels with a certificate request
+			r := g.w.Do(vReq{Method: "POST", Path: "/certgen/" + u + "?type=x509", PubKey: vPEMPub(&vUserEC.PublicKey), BodyType: "multipart",
+				Form: url.Values{"duration": {"1h"}}, Basic: []string{name, vStr(a, "pw")}})
+			out["accepted"] = r.Status == 200 && g.w.parseIssued(r.Body).Kind != "none"
+			out["panic"] = r.Panic != ""
+			out["status"] = r.Status
+			break
+		}
+		r := g.w.Do(vReq{Method: "POST", Path: "/api/v0/login", Form: url.Values{"username": {name}, "password": {vStr(a, "pw")}}})
 		out["accepted"] = r.Status == 200 && r.Cookie(authCookieName) != nil
 		out["panic"] = r.Panic != ""
 		out["status"] = r.Status
